@@ -4,9 +4,11 @@ import (
 	"encoding/json"
 	"fmt"
 	"math/rand"
+	"reflect"
 	"strings"
 
 	pipeline "github.com/buildkite/go-pipeline"
+	"github.com/buildkite/go-pipeline/ordered"
 	"github.com/buildkite/go-pipeline/warning"
 )
 
@@ -44,6 +46,54 @@ func c10Event(c obj, kind string) obj {
 		pl, err := pipeline.Parse(strings.NewReader(src))
 		if err != nil && !warning.Is(err) {
 			panic("driver: document does not parse: " + err.Error() + "\n" + src)
+		}
+		if ed, ok := c["edit"].(json.Number); ok && ed.String() != "0" && pl.Env != nil && pl.Env.Len() > 0 {
+			// the SAME block, but arrived at through the map's API: entries that were added and removed again (or
+			// displaced by a rename) are not entries of the block - they are not expanded, exported or kept
+			type kv = ordered.Tuple[string, string]
+			var items []kv
+			pl.Env.Range(func(k, v string) error { items = append(items, kv{Key: k, Value: v}); return nil })
+			m := ordered.NewMap[string, string](0)
+			switch ed.String() {
+			case "1": // a removed entry in front (and one more slot than removals: no compaction)
+				m.Set("TOMB_HEAD", "tomb-$TOMB_HEAD")
+				for _, it := range items {
+					m.Set(it.Key, it.Value)
+				}
+				m.Set("TOMB_TAIL", "tail")
+				m.Delete("TOMB_HEAD")
+				m.Delete("TOMB_TAIL")
+				if m.Len() < 3 {
+					m.Set("TOMB_X", "x")
+					m.Delete("TOMB_X")
+				}
+			case "2": // the first entry arrives by a rename onto its own stale twin, which is left behind in front
+				m.Set(items[0].Key, "stale-$HOME_DIR")
+				m.Set("TOMB_TMP", "tmp")
+				for _, it := range items[1:] {
+					m.Set(it.Key, it.Value)
+				}
+				m.Replace("TOMB_TMP", items[0].Key, items[0].Value)
+			default: // a removed entry after every second one
+				for i, it := range items {
+					m.Set(it.Key, it.Value)
+					if i%2 == 0 {
+						m.Set(fmt.Sprintf("TOMB_%d", i), "${"+it.Key+"}-tomb")
+					}
+				}
+				for i := len(items) - 1; i >= 0; i-- {
+					if i%2 == 0 && i > 0 {
+						m.Delete(fmt.Sprintf("TOMB_%d", i))
+					}
+				}
+				m.Delete("TOMB_0")
+			}
+			var back []kv
+			m.Range(func(k, v string) error { back = append(back, kv{Key: k, Value: v}); return nil })
+			if !reflect.DeepEqual(back, items) {
+				panic(fmt.Sprintf("driver: the edited block is not the block: %v vs %v", back, items))
+			}
+			pl.Env = m
 		}
 		init := map[string]string{}
 		for k, v := range asMap(c["env0"]) {
@@ -225,7 +275,7 @@ func c10RandomCase(rng *rand.Rand) obj {
 			probe = append(probe, k)
 		}
 	}
-	return obj{"mode": mode, "prefer": prefer, "block": block, "env0": env0, "probe": probe}
+	return obj{"mode": mode, "prefer": prefer, "block": block, "env0": env0, "probe": probe, "edit": rng.Intn(4)}
 }
 
 var _ = rand.Int
